@@ -1233,6 +1233,12 @@ class Engine:
             return None
         if e["k"] in CALLS and callee_fq(e) in PASS_THROUGH_FUNCS:
             return self._lock_value(g, la, g.s(e["args"][0]), pos)
+        if e["k"] in CALLS and lock_class(e.get("t", "")) and (e.get("callee") or {}).get("inrepo"):
+            # a lock object that comes out of a factory of the library (shared_locker<M>::generate_lock(m))
+            s_ = self.handle_summary_of_call(g, e)
+            if s_ and len(s_) == 1 and s_[0].get("mutex"):
+                return LockVal(s_[0]["mutex"], s_[0].get("mode") or "X", s_[0]["st"])
+            return None
         if e["k"] in CTORS:
             args = [g.s(x) for x in e["args"]]
             ptypes = e["callee"].get("params", [])
